@@ -33,6 +33,10 @@ pub fn gen_index(u: &mut U) -> u32 {
 
 pub fn gen_path(u: &mut U, max_depth: usize) -> Vec<Step> {
     let depth = u.range(1, max_depth);
+    gen_path_of_depth(u, depth)
+}
+
+pub fn gen_path_of_depth(u: &mut U, depth: usize) -> Vec<Step> {
     let style = u.below(5);
     (0..depth)
         .map(|i| Step {
@@ -67,7 +71,90 @@ pub fn gen_seed(u: &mut U) -> Vec<u8> {
 fn gen_case(tape: Vec<u8>) -> Case {
     let mut u = U::new(&tape);
     let seed = gen_seed(&mut u);
-    Case { seed_hex: hex_lower(&seed), path: gen_path(&mut u, 12) }
+    let path = if u.ratio(1, 400) {
+        // very deep paths (beyond a byte-sized depth counter)
+        let depth = [64usize, 255, 256, 257, 300, 1000][u.below(6)];
+        gen_path_of_depth(&mut u, depth)
+    } else {
+        gen_path(&mut u, 12)
+    };
+    Case { seed_hex: hex_lower(&seed), path }
+}
+
+/// A history: several derivations on ONE seed, judged in sequence on one thread, whose paths are related
+/// (same indices with other hardened flags, siblings, prefixes, extensions, repeats) - the oracle is
+/// history-independent, so state carried between calls shows as a wrong key.
+#[derive(Clone, Debug, Serialize, Deserialize)]
+pub struct Family {
+    pub seed_hex: String,
+    pub paths: Vec<Vec<Step>>,
+}
+
+fn gen_family(tape: Vec<u8>) -> Family {
+    let mut u = U::new(&tape);
+    let seed = gen_seed(&mut u);
+    let base = gen_path(&mut u, 7);
+    let mut paths = vec![base.clone()];
+    let n = u.range(2, 6);
+    for _ in 0..n {
+        let prev = paths[u.below(paths.len())].clone();
+        let mut p = prev.clone();
+        match u.below(7) {
+            0 => {
+                // flip the hardened flag of one component
+                let i = u.below(p.len());
+                p[i].hardened = !p[i].hardened;
+            }
+            1 => {
+                // sibling: other last index
+                let l = p.len() - 1;
+                p[l].index = gen_index(&mut u);
+            }
+            2 => {
+                // flip the flag of a PARENT component and change the last index
+                if p.len() >= 2 {
+                    let i = u.below(p.len() - 1);
+                    p[i].hardened = !p[i].hardened;
+                }
+                let l = p.len() - 1;
+                p[l].index = p[l].index.wrapping_add(1) & 0x7fff_ffff;
+            }
+            3 => {
+                p.pop();
+                if p.is_empty() {
+                    p = prev.clone();
+                }
+            }
+            4 => p.push(Step { index: gen_index(&mut u), hardened: u.bool() }),
+            5 => {} // the same path again
+            _ => {
+                // all flags inverted
+                p.iter_mut().for_each(|s| s.hardened = !s.hardened);
+            }
+        }
+        paths.push(p);
+    }
+    Family { seed_hex: hex_lower(&seed), paths }
+}
+
+fn judge_family(f: &Family, cls: &mut Classifier) -> Verdict {
+    for (i, p) in f.paths.iter().enumerate() {
+        if i > 0 {
+            cls.eval();
+        }
+        let mut scratch = Classifier::default();
+        judge(&Case { seed_hex: f.seed_hex.clone(), path: p.clone() }, &mut scratch).map_err(|mut e| {
+            e.note = format!("derivation #{i} of a history on one seed (earlier paths: {}): {}", f.paths[..i].iter().map(|q| bip32::render(q)).collect::<Vec<_>>().join(", "), e.note);
+            e
+        })?;
+    }
+    cls.label("history");
+    if f.paths.windows(2).any(|w| w[0].len() == w[1].len() && w[0].iter().zip(w[1].iter()).all(|(a, b)| a.index == b.index) && w[0] != w[1]) {
+        cls.label("history-same-indices-other-flags");
+    }
+    cls.nontrivial(&(f.seed_hex.as_str(), f.paths.clone()));
+    cls.sample("history", || json!({"seed": f.seed_hex, "paths": f.paths.iter().map(|p| bip32::render(p)).collect::<Vec<_>>()}));
+    Ok(())
 }
 
 fn judge(c: &Case, cls: &mut Classifier) -> Verdict {
@@ -115,6 +202,9 @@ fn judge(c: &Case, cls: &mut Classifier) -> Verdict {
     if depth >= 8 {
         cls.label("depth>=8");
     }
+    if depth >= 256 {
+        cls.label("depth>=256");
+    }
     cls.label(&format!("seedlen-{}", match seed.len() { 16 => "16", 32 => "32", 64 => "64", _ => "other" }));
     if depth != 5 || c.path.iter().any(|s| s.index != 0) {
         cls.nontrivial(&(c.seed_hex.as_str(), text.as_str()));
@@ -124,12 +214,15 @@ fn judge(c: &Case, cls: &mut Classifier) -> Verdict {
 }
 
 pub fn run(ctx: &mut Ctx) {
-    ctx.rule = "seed of 16/32/64 bytes (70%) or any length 1..128, uniform or structured; path of depth 1..12 with indices from {0,1,2^31-1,2^31-2,byte-order probes,small,uniform 31-bit}, hardened flags all/none/BIP-44-shaped/inverted/random; rendered to text and parsed (the only public constructor). Oracle: BIP-32 written from the BIP over an independent secp256k1 (cross-checked against k256 in selftest). Non-trivial: some index != 0 or depth != 5; distinct by (seed, path).".into();
+    ctx.rule = "seed of 16/32/64 bytes (70%) or any length 1..128, uniform or structured; path of depth 1..12 with indices from {0,1,2^31-1,2^31-2,byte-order probes,small,uniform 31-bit}, hardened flags all/none/BIP-44-shaped/inverted/random; rendered to text and parsed (the only public constructor); one case in 400 has depth 64..1000; a second sub-check derives histories of 3..7 related paths (flags flipped, siblings, prefixes, extensions, repeats) on one seed in sequence on one thread. Oracle: BIP-32 written from the BIP over an independent secp256k1 (cross-checked against k256 in selftest). Non-trivial: some index != 0 or depth != 5; distinct by (seed, path).".into();
     ctx.assumptions = vec!["hmac/sha2 primitives are correct".into(), "BIP-32-invalid steps (I_L >= n, zero child) are unreachable by generation (probability < 2^-127)".into()];
     ctx.replay_known_and_regressions(&replay);
     let n = ctx.tier.pick(100_000, 1_000_000);
     ctx.run_prop("derive", n, || crate::gen::tape(160).prop_map(gen_case), judge);
     let total = ctx.cls.evaluations;
+    ctx.run_prop("history", ctx.tier.pick(8000, 100_000), || crate::gen::tape(200).prop_map(gen_family), judge_family);
+    ctx.floor_abs("history-same-indices-other-flags", 500);
+    ctx.floor_abs("depth>=256", 20);
     ctx.floor("mixed", total, 0.2);
     ctx.floor("all-normal", total, 0.05);
     ctx.floor("hardened-below-normal", total, 0.1);
@@ -140,6 +233,7 @@ pub fn run(ctx: &mut Ctx) {
 pub fn replay(sub: &str, case: &Value) -> Option<Verdict> {
     match sub {
         "derive" => Some(replay_as::<Case>(case, judge)),
+        "history" => Some(replay_as::<Family>(case, judge_family)),
         _ => None,
     }
 }
